@@ -20,6 +20,16 @@ from sim import workloads
 PROP = "C15"
 NAME = "faultsim"
 
+RULE = (
+    "faultsim: one run = generated scheme x method x verbose x raise_exception, fault-free baseline, 2-6 fault-armed "
+    "optimize() calls (thorough 'all' mode: one per evaluation k=1..N), invalid-scheme probes, recovery run; distinct = digest of "
+    "(scheme feature vector, set of (method, driver, phase, fault kind, site, exception type, verbose, raise_exception) cells); "
+    "non-trivial = at least one fault fired AND its outcome oracle was evaluated"
+)
+REAL_VS_STUB = {
+    "real": "optimize(), Optimizer, scipy least_squares (trf/dogbox/lm), providers, megacomplexes, numba kernels, TeeContext",
+    "stub": "in ~25% of runs scipy least_squares is replaced by a scripted driver producing schedules scipy would not",
+}
 EXC_CHOICES = [
     "InjectedFault",
     "ValueError",
@@ -152,9 +162,16 @@ def result_digest(result) -> str:
         "cov": None
         if result.covariance_matrix is None
         else core.arr_digest(np.asarray(result.covariance_matrix)),
-        "hist": core.arr_digest(np.asarray(result.parameter_history.parameters, dtype=float)),
+        # column 0 is the iteration number parsed from scipy's verbose output: it depends on `verbose`, not on the fit
+        "hist": core.arr_digest(np.asarray(result.parameter_history.parameters, dtype=float)[:, 1:]),
         "data": {
-            label: {str(v): core.arr_digest(ds[v].values) for v in sorted(map(str, ds.data_vars))}
+            label: {
+                str(v): core.arr_digest(ds[v].values)
+                for v in sorted(map(str, ds.data_vars))
+                # SVD of the *input* data is added to the caller's dataset by add_svd=True (documented) and is
+                # then copied into later results; it says nothing about the fit, so it is not part of the digest
+                if not (str(v).startswith("data_") and "singular" in str(v))
+            }
             for label, ds in sorted(result.data.items())
         },
     }
@@ -642,6 +659,10 @@ def shrink_candidates(plan: dict, violation: dict):
     import copy
 
     faults = plan["faults"]
+    if faults:
+        p = copy.deepcopy(plan)
+        p["faults"] = []
+        yield p
     # 1. single fault
     if len(faults) > 1:
         for f in faults:
